@@ -4,6 +4,7 @@ package parser
 // to token.Token. This is an unexported implementation detail used by ParseFromModelTokens.
 
 import (
+	"strings"
 	"sync"
 
 	goerrors "github.com/ajitpratap0/GoSQLX/pkg/errors"
@@ -137,7 +138,7 @@ func (tc *tokenConverter) handleCompoundToken(t models.TokenWithSpan) []token.To
 		}
 	}
 
-	switch t.Token.Value {
+	switch strings.ToUpper(t.Token.Value) { // compound keywords in any letter case
 	case "INNER JOIN":
 		return []token.Token{
 			{Type: models.TokenTypeInner, Literal: "INNER"},
